@@ -3,6 +3,7 @@ From Coq Require Import List NArith ZArith Lia.
 Import ListNotations.
 Require Import ITree.Model.Common ITree.Model.RBTree ITree.Model.MapModel ITree.Model.KeyModel ITree.Model.ListModel.
 Require Import ITree.Spec.Spec ITree.Proofs.KeyListProofs ITree.Proofs.KeyProofs ITree.Proofs.KeyRefine ITree.Proofs.KeyTheorems.
+Require ITree.Model.ArenaModel ITree.Model.ArenaQuery ITree.Proofs.ArenaProofs ITree.Proofs.ArenaQueryProofs.
 
 (* the export step from any state related to a bag: the values of exactly the entries of the bag with
    expiration > t, sorted by key ([ref_export]); the state is not changed *)
@@ -24,3 +25,11 @@ Example C07_example :
   kvalid_hist ([], None) h /\
   exists s, k_run (k_new 8) h = Ret (s, [KONone; KONone; KONone; KOList [2; 1; 3]%Z; KOList [2; 3]%Z; KOList [3%Z]; KOList []]).
 Proof. split; [kvalid_tac|]. eexists. vm_compute. reflexivity. Qed.
+
+(* the export as the code performs it (src/key/array.rs, create_ordered_list: in-order traversal with
+   an explicit stack of (index, left, right) records), on the arena: the list of the tree-level
+   [k_export], within 3*size iterations *)
+Theorem C07_arena_export : forall (a: ArenaModel.astate kent) (s: kstate) (time: Z) (fuel: nat),
+  ArenaProofs.Rep a ArenaModel.EMPTY (ArenaModel.aroot a) (kroot s) -> (3 * KeyModel.ksize s < fuel)%nat ->
+  ArenaQuery.arena_export fuel a time = Ret (k_export s time).
+Proof. exact ArenaQueryProofs.arena_k_export. Qed.
